@@ -580,7 +580,9 @@ def pp_prog(p):
 # ------------------------------------------------------------------------------------------------
 # findings (defects of the REAL type checker found by this part; each has a witness in corpus/lmmt/cases.json that is run
 # first).  A mutant kind listed in TOLERATED may be accepted by the real checker although even the lenient configuration of
-# the model rejects it; what the backends then do is attributed to the finding.
+# the model rejects it; what the backends then do is attributed to the finding.  Every other mutant obeys the SANDWICH
+#     tc_prog (strict, proved sound)  accepts  =>  typing.rs accepts  =>  tc_prog (lenient) accepts
+# and the lenient configuration is lenient exactly where typing.rs still is (T0-T5, T7 on tuples, T9 function values).
 # ------------------------------------------------------------------------------------------------
 FINDINGS = {
     "T0": "typing/unification.rs unify_vec DROPS the errors of the elements when two tuples of equal length are unified (it returns "
@@ -605,7 +607,7 @@ FINDINGS = {
     "TS": "(not a defect) `self` has an inferred type in the real checker; the model needs it written at the function's type (XSelfS): the "
           "mutant reads a tuple-valued self with the number form of `self`",
     "T6": "REPAIRED (fix: match arms of different types are a type error): typing.rs Expr::Match dropped the error of unifying the arms "
-          "((match now { 0 => 1.0, _ => (2.0, 3.0) }) + 1.0 played 2 3 3); the mutants of kind match-arms-type must be rejected again",
+          "((match now { 0 => 1.0, _ => (2.0, 3.0) }) + 1.0 played 2 3 3); the lenient configuration rejects the mutants of kind match-arms-type too",
     "T7": "what is left: check_match_exhaustiveness takes every TUPLE pattern for a wildcard: a match on a tuple without `_` arm is accepted; when "
           "no arm applies the VM runs the LAST arm's code and WASM plays 0.0 (fn g(p){ match p { (0, 0) => 1.0, (1, _) => 2.0 } } fn dsp(){ "
           "g((now, 0.0)) }: VM 1 2 2, WASM 1 2 0; the reference semantics is stuck: E_NOMATCH).  REPAIRED for a number scrutinee (fix: a match "
@@ -631,19 +633,16 @@ TOLERATED = {
     "delay-tuple": "T3", "delay-time-tuple": "T3", "assign-function-name": "T4",
     "arg-tuple": "T5", "pipe-tuple": "T5", "default-tuple": "DEF", "binop-tuple": "F40", "neg-tuple": "F40",
     "match-drop-wildcard-arm-tuple": "T7",
-    "ctor-missing-payload": "T9", "ctor-other-payload": "T0",
+    "ctor-other-payload": "T0",
 }
 
-# mutant kinds of REPAIRED leniencies (T6, T7 on numbers, T8, the scrutinee part of T9): the lenient configuration of tc_prog still
-# models the old typing.rs for them (it is an upper bound only), so it cannot excuse them any more: whenever tc_prog (strict)
-# rejects such a mutant the real checker must reject it too
-MUST_REJECT = {
-    "match-arms-type": "T6", "match-drop-wildcard-arm": "T7", "match-scrutinee-tuple": "T8",
-    "match-constructor-pattern-on-number": "T8", "match-tuple-pattern-on-number": "T8", "match-tuple-pattern-longer": "T8",
-    "match-payload-pattern-tuple": "T8", "match-binder-for-no-payload": "T8", "match-literal-pattern-on-sum": "T8",
-    "ctor-missing-payload-scrutinee": "T9",
-}
-
+# The repaired leniencies (T6, T7 on numbers, T8, the scrutinee part of T9) need no list here: the LENIENT configuration of tc_prog
+# follows the repaired typing.rs (Lmmt/Check.v: tc_mpat is the same function in both configurations, the arms must have one type,
+# a match on a number needs `_`; Props/C03_types.v C03_types_lenient_rejects_T6/T7/T8/T9), so a mutant of these kinds that typing.rs
+# accepts again is outside the sandwich strict <= real <= lenient and is reported as such.
+# What is left of T9 is INSIDE the lenient configuration (a payload constructor without its payload is a function value): the kind is
+# not tolerated, it only names the finding the backend failures of such programs are attributed to.
+ATTRIBUTED = {"ctor-missing-payload": "T9"}
 
 def free_self(p):
     """`self` has an INFERRED type in the real checker (the function's result type).  It is pinned to a number only where it is an
@@ -865,9 +864,6 @@ def run_part(ck, quick=True, site_class=None):
                 bad.append((i, "the lenient configuration of tc_prog rejects a program its strict configuration accepts (mutation: %s)" % kind)); continue
             if mv == "ok" and rv != "ok":
                 bad.append((i, "tc_prog accepts a program the real type checker rejects (mutation: %s)" % kind)); continue
-            if rv == "ok" and mv != "ok" and kind in MUST_REJECT:
-                bad.append((i, "the real type checker accepts a mutant of kind %s that tc_prog rejects: the repaired finding %s is back "
-                               "(typing.rs no longer reports it)" % (kind, MUST_REJECT[kind]))); continue
             if rv == "ok" and lv != "ok" and kind not in TOLERATED and not kind.startswith("self-returns") and free_self(p):
                 bump("mutants_discarded_self_has_an_inferred_type"); kbump(kind, "discarded(self inferred)")
                 continue
@@ -876,7 +872,7 @@ def run_part(ck, quick=True, site_class=None):
                                "(mutation: %s; not a documented leniency of typing.rs)" % kind)); continue
             if mv == rv == "ok": bump("mutants_accepted_by_both")
             elif mv != "ok" and rv != "ok": bump("mutants_rejected_by_both")
-            elif lv == "ok": bump("mutants_real_accepts_within_lenient_configuration(T0)")
+            elif lv == "ok": bump("mutants_real_accepts_within_lenient_configuration(%s)" % ATTRIBUTED.get(kind, "T0"))
             else: bump("mutants_real_accepts_tolerated_kind")
             if mv != "ok" and rv == "ok" and "stuck" in run:
                 bump("mutants_real_accepts_but_reference_is_stuck")
@@ -937,7 +933,7 @@ def run_part(ck, quick=True, site_class=None):
             if lc and all(v == 'ok' or re.search(r"value reg\(\d+\) not found", v) for v in outs.values()):
                 bump("both_accept_backend_compile_failure_in_lmmx_class(%s)" % "+".join(lc)); continue
             bad.append((i, "a program accepted by the real type checker (and by tc_prog) does not compile / run: " + why[:300])); continue
-        fid = TOLERATED.get(kind) or "T0"
+        fid = TOLERATED.get(kind) or ATTRIBUTED.get(kind) or "T0"
         if not all(v == 'ok' or re.search(FAILURE_SIGNATURES, v) for v in outs.values()):
             bad.append((i, "a program only the real type checker accepts (mutation: %s, finding %s) fails on a backend in a way not seen "
                            "before for the findings of this part: %s" % (kind, fid, why[:300]))); continue
